@@ -1,0 +1,173 @@
+//go:build verif
+
+package deneb
+
+// Contracts for govc (see /verif/DESIGN.md). Comment-only: no declarations.
+
+// ---------------------------------------------------------------- execution engine (assumed interface model, C18)
+// Engine verdicts are uninterpreted functions of (engine, payload object, parent beacon root / versioned hashes); ghost counters record
+// what the engine was shown. The payload header is stored through SetLatestExecutionPayloadHeader (counted).
+//@ sort EngI_deneb = ExecutionEngine
+//@ sort PayloadT_deneb = ExecutionPayload
+//@ ufun eng_hash_err_deneb(EngI_deneb, PayloadT_deneb, RootT) bool
+//@ ufun eng_hash_ok_deneb(EngI_deneb, PayloadT_deneb, RootT) bool
+//@ ufun eng_notify_err_deneb(EngI_deneb, PayloadT_deneb, RootT) bool
+//@ ufun eng_notify_valid_deneb(EngI_deneb, PayloadT_deneb, RootT) bool
+//@ sort RootT = common.Root
+//@ sort HashesT = []common.Hash32
+//@ ufun eng_vh_err_deneb(EngI_deneb, PayloadT_deneb, HashesT) bool
+//@ ufun eng_vh_ok_deneb(EngI_deneb, PayloadT_deneb, HashesT) bool
+
+//@ func (e ExecutionEngine) DenebIsValidBlockHash(ctx, payload, parentBeaconBlockRoot) (ok, err)
+//@   trusted
+//@   opt noalloc
+//@   ensures (err != nil) == eng_hash_err_deneb(e, *payload, parentBeaconBlockRoot)
+//@   ensures err == nil ==> ok == eng_hash_ok_deneb(e, *payload, parentBeaconBlockRoot)
+
+//@ func (e ExecutionEngine) DenebNotifyNewPayload(ctx, executionPayload, parentBeaconBlockRoot) (valid, err)
+//@   trusted
+//@   opt noalloc
+//@   assigns ghost(n_eng_notify)
+//@   ensures n_eng_notify == old(n_eng_notify) + 1
+//@   ensures (err != nil) == eng_notify_err_deneb(e, *executionPayload, parentBeaconBlockRoot)
+//@   ensures err == nil ==> valid == eng_notify_valid_deneb(e, *executionPayload, parentBeaconBlockRoot)
+
+//@ func (e ExecutionEngine) DenebIsValidVersionedHashes(ctx, payload, versionedHashes) (ok, err)
+//@   trusted
+//@   opt noalloc
+//@   ensures (err != nil) == eng_vh_err_deneb(e, *payload, versionedHashes)
+//@   ensures err == nil ==> ok == eng_vh_ok_deneb(e, *payload, versionedHashes)
+
+//@ func (s ExecutionTrackingBeaconState) SetLatestExecutionPayloadHeader(h) err
+//@   trusted
+//@   assigns anything, ghost(n_set_exec_header)
+//@   ensures n_set_exec_header == old(n_set_exec_header) + 1
+
+//@ func (s ExecutionTrackingBeaconState) LatestExecutionPayloadHeader() (r, err)
+//@   trusted
+//@   ensures err == nil ==> r != nil
+//@ func (v *ExecutionPayloadHeaderView) Raw() (r, err)
+//@   trusted
+//@   ensures err == nil ==> r != nil
+
+// BEGIN C18 generated (tools/gen_c18.py in /verif)
+// cancelled: a context cancelled before the call makes it fail; surfaced: a cancellation observed by a poll
+// during the call makes it fail; polled: success after a poll means the context was not cancelled at entry.
+
+//@ func ProcessAttestations(ctx, spec, epc, state, ops) err
+//@   property C18
+//@   panics off
+//@   requires ctx != nil
+//@   opt weakcalls
+//@   opt inline=closures
+//@   assigns anything, ghost(ctx_t), ghost(ctx_seen)
+//@   ensures surfaced: !old(ctx_seen) && ctx_seen ==> err != nil
+//@   ensures polled: err == nil && ctx_t > old(ctx_t) ==> !ctx_cancelled(ctx, old(ctx_t))
+//@   ensures time: ctx_t >= old(ctx_t)
+//@   loop *
+//@     invariant ctx_t >= old(ctx_t) && (old(ctx_seen) || !ctx_seen)
+//@     invariant ctx_t > old(ctx_t) ==> !ctx_cancelled(ctx, old(ctx_t))
+
+//@ func VerifyAndNotifyNewPayload(ctx, eng, newPayloadRequest) (r0, err)
+//@   property C18
+//@   panics off
+//@   requires ctx != nil
+//@   opt weakcalls
+//@   opt inline=closures
+//@   assigns anything, ghost(ctx_t), ghost(ctx_seen)
+//@   ensures surfaced: !old(ctx_seen) && ctx_seen ==> err != nil
+//@   ensures polled: err == nil && ctx_t > old(ctx_t) ==> !ctx_cancelled(ctx, old(ctx_t))
+//@   ensures time: ctx_t >= old(ctx_t)
+//@   loop *
+//@     invariant ctx_t >= old(ctx_t) && (old(ctx_seen) || !ctx_seen)
+//@     invariant ctx_t > old(ctx_t) ==> !ctx_cancelled(ctx, old(ctx_t))
+//@   assigns ghost(n_eng_notify)
+//@   ensures verdict: err == nil && r0 ==> !eng_hash_err_deneb(eng, old(*newPayloadRequest.ExecutionPayload), old(newPayloadRequest.ParentBeaconBlockRoot)) && eng_hash_ok_deneb(eng, old(*newPayloadRequest.ExecutionPayload), old(newPayloadRequest.ParentBeaconBlockRoot)) && !eng_vh_err_deneb(eng, old(*newPayloadRequest.ExecutionPayload), old(newPayloadRequest.VersionedHashes)) && eng_vh_ok_deneb(eng, old(*newPayloadRequest.ExecutionPayload), old(newPayloadRequest.VersionedHashes)) && !eng_notify_err_deneb(eng, old(*newPayloadRequest.ExecutionPayload), old(newPayloadRequest.ParentBeaconBlockRoot)) && eng_notify_valid_deneb(eng, old(*newPayloadRequest.ExecutionPayload), old(newPayloadRequest.ParentBeaconBlockRoot)) && n_eng_notify == old(n_eng_notify) + 1
+//@   ensures faults: (eng_hash_err_deneb(eng, old(*newPayloadRequest.ExecutionPayload), old(newPayloadRequest.ParentBeaconBlockRoot)) ==> err != nil) && (n_eng_notify > old(n_eng_notify) && eng_notify_err_deneb(eng, old(*newPayloadRequest.ExecutionPayload), old(newPayloadRequest.ParentBeaconBlockRoot)) ==> err != nil)
+//@   ensures asked_once: n_eng_notify <= old(n_eng_notify) + 1
+
+//@ func ProcessExecutionPayload(ctx, spec, state, body, engine) err
+//@   property C18
+//@   panics off
+//@   requires ctx != nil
+//@   opt weakcalls
+//@   opt inline=closures
+//@   assigns anything, ghost(ctx_t), ghost(ctx_seen)
+//@   ensures cancelled: ctx_cancelled(ctx, old(ctx_t)) ==> err != nil
+//@   ensures surfaced: !old(ctx_seen) && ctx_seen ==> err != nil
+//@   ensures polled: err == nil && ctx_t > old(ctx_t) ==> !ctx_cancelled(ctx, old(ctx_t))
+//@   ensures time: ctx_t >= old(ctx_t)
+//@   loop *
+//@     invariant ctx_t >= old(ctx_t) && (old(ctx_seen) || !ctx_seen)
+//@     invariant ctx_t > old(ctx_t) ==> !ctx_cancelled(ctx, old(ctx_t))
+//@   assigns ghost(n_eng_notify), ghost(n_set_exec_header)
+//@   ensures asked: err == nil ==> n_eng_notify == old(n_eng_notify) + 1
+//@   ensures approved: err == nil ==> (exists root RootT :: !eng_hash_err_deneb(engine, old(body.ExecutionPayload), root) && eng_hash_ok_deneb(engine, old(body.ExecutionPayload), root) && !eng_notify_err_deneb(engine, old(body.ExecutionPayload), root) && eng_notify_valid_deneb(engine, old(body.ExecutionPayload), root))
+//@   ensures hashes: err == nil ==> (exists hs HashesT :: {eng_vh_ok_deneb(engine, old(body.ExecutionPayload), hs)} !eng_vh_err_deneb(engine, old(body.ExecutionPayload), hs) && eng_vh_ok_deneb(engine, old(body.ExecutionPayload), hs) && len(hs) == old(len(body.BlobKZGCommitments)) && (forall i :: {hs[i]} 0 <= i && i < len(hs) ==> hs[i] == kzg_vhash(old(body.BlobKZGCommitments[i]))))
+//@   ensures header_on_success: err == nil ==> n_set_exec_header == old(n_set_exec_header) + 1
+//@   ensures header_after_approval: n_set_exec_header > old(n_set_exec_header) ==> n_set_exec_header == old(n_set_exec_header) + 1 && n_eng_notify == old(n_eng_notify) + 1
+//@   loop 1
+//@     invariant len(versionedHashes) == rangeindex + 1 && n_eng_notify == old(n_eng_notify) && n_set_exec_header == old(n_set_exec_header)
+//@     invariant forall i :: {versionedHashes[i]} 0 <= i && i <= rangeindex ==> versionedHashes[i] == kzg_vhash(body.BlobKZGCommitments[i])
+
+//@ func ProcessEpochRegistryUpdates(ctx, spec, epc, flats, state) err
+//@   property C18
+//@   panics off
+//@   requires ctx != nil
+//@   opt weakcalls
+//@   opt inline=closures
+//@   assigns anything, ghost(ctx_t), ghost(ctx_seen)
+//@   ensures cancelled: ctx_cancelled(ctx, old(ctx_t)) ==> err != nil
+//@   ensures surfaced: !old(ctx_seen) && ctx_seen ==> err != nil
+//@   ensures polled: err == nil && ctx_t > old(ctx_t) ==> !ctx_cancelled(ctx, old(ctx_t))
+//@   ensures time: ctx_t >= old(ctx_t)
+//@   loop *
+//@     invariant ctx_t >= old(ctx_t) && (old(ctx_seen) || !ctx_seen)
+//@     invariant ctx_t > old(ctx_t) ==> !ctx_cancelled(ctx, old(ctx_t))
+
+//@ func (state *BeaconStateView) ProcessEpoch(ctx, spec, epc) err
+//@   property C18
+//@   panics off
+//@   requires ctx != nil
+//@   opt weakcalls
+//@   opt inline=closures
+//@   assigns anything, ghost(ctx_t), ghost(ctx_seen)
+//@   ensures cancelled: ctx_cancelled(ctx, old(ctx_t)) ==> err != nil
+//@   ensures surfaced: !old(ctx_seen) && ctx_seen ==> err != nil
+//@   ensures polled: err == nil && ctx_t > old(ctx_t) ==> !ctx_cancelled(ctx, old(ctx_t))
+//@   ensures time: ctx_t >= old(ctx_t)
+//@   loop *
+//@     invariant ctx_t >= old(ctx_t) && (old(ctx_seen) || !ctx_seen)
+//@     invariant ctx_t > old(ctx_t) ==> !ctx_cancelled(ctx, old(ctx_t))
+
+//@ func (state *BeaconStateView) ProcessBlock(ctx, spec, epc, benv) err
+//@   property C18
+//@   panics off
+//@   requires ctx != nil
+//@   opt weakcalls
+//@   opt inline=closures
+//@   assigns anything, ghost(ctx_t), ghost(ctx_seen)
+//@   ensures cancelled: ctx_cancelled(ctx, old(ctx_t)) ==> err != nil
+//@   ensures surfaced: !old(ctx_seen) && ctx_seen ==> err != nil
+//@   ensures polled: err == nil && ctx_t > old(ctx_t) ==> !ctx_cancelled(ctx, old(ctx_t))
+//@   ensures time: ctx_t >= old(ctx_t)
+//@   loop *
+//@     invariant ctx_t >= old(ctx_t) && (old(ctx_seen) || !ctx_seen)
+//@     invariant ctx_t > old(ctx_t) ==> !ctx_cancelled(ctx, old(ctx_t))
+//@   assigns ghost(n_eng_notify), ghost(n_set_exec_header)
+
+//@ func ProcessVoluntaryExits(ctx, spec, epc, state, ops) err
+//@   property C18
+//@   panics off
+//@   requires ctx != nil
+//@   opt weakcalls
+//@   opt inline=closures
+//@   assigns anything, ghost(ctx_t), ghost(ctx_seen)
+//@   ensures surfaced: !old(ctx_seen) && ctx_seen ==> err != nil
+//@   ensures polled: err == nil && ctx_t > old(ctx_t) ==> !ctx_cancelled(ctx, old(ctx_t))
+//@   ensures time: ctx_t >= old(ctx_t)
+//@   loop *
+//@     invariant ctx_t >= old(ctx_t) && (old(ctx_seen) || !ctx_seen)
+//@     invariant ctx_t > old(ctx_t) ==> !ctx_cancelled(ctx, old(ctx_t))
+
+// END C18 generated
